@@ -212,7 +212,8 @@ class C13(Prop):
         m0 = re.match(rb"^- .*- (\d+)$", lines[0]) if rep.startswith(b"\n") and len(lines) > 3 else None
         m1 = re.match(rb"^\+ .*\+ (\d+)$", lines[1]) if m0 else None
         if not m0 or not m1:
-            return "unexpected header"
+            self.skip("the report header has a shape this oracle cannot read: nothing is judged from it (the reader-based tie reports it)")
+            return None
         nd, ni = int(m0.group(1)), int(m1.group(1))
         body = rep[1:].split(b"\n", 3)[3]
         # strip the footer: last line "at ..." preceded by an empty line
